@@ -2,6 +2,7 @@ package main
 
 import (
 	"fmt"
+	"go/constant"
 	"go/types"
 	"strings"
 
@@ -649,8 +650,99 @@ func (vc *FnVC) libModel(st *State, callee *ssa.Function, c *ssa.CallCommon, arg
 		return vc.bytesToString(st, args[0], rt)
 	case "unsafe.String", "unsafe.StringData", "unsafe.SliceData", "unsafe.Slice":
 		return nil
+	case "fmt.Sprintf":
+		return vc.sprintfModel(st, c, rt)
 	}
 	return nil
+}
+
+// sprintfModel: fmt.Sprintf with a constant format made of literal text and %s verbs whose arguments are all
+// strings is the concatenation of the pieces. Anything else is left unmodelled (unconstrained result).
+func (vc *FnVC) sprintfModel(st *State, c *ssa.CallCommon, rt types.Type) *Val {
+	if len(c.Args) != 2 {
+		return nil
+	}
+	fc, ok := c.Args[0].(*ssa.Const)
+	if !ok || fc.Value == nil || fc.Value.Kind() != constant.String {
+		return nil
+	}
+	format := constant.StringVal(fc.Value)
+	// the variadic arguments: a slice of a local array whose elements are stored just before the call
+	var arr *ssa.Alloc
+	switch a := c.Args[1].(type) {
+	case *ssa.Slice:
+		arr, _ = a.X.(*ssa.Alloc)
+	case *ssa.Const:
+		if a.Value != nil {
+			return nil
+		}
+	}
+	elems := map[int64]ssa.Value{}
+	if arr != nil {
+		for _, ref := range *arr.Referrers() {
+			ia, ok := ref.(*ssa.IndexAddr)
+			if !ok {
+				continue
+			}
+			ic, ok := ia.Index.(*ssa.Const)
+			if !ok {
+				return nil
+			}
+			for _, r2 := range *ia.Referrers() {
+				if stv, ok := r2.(*ssa.Store); ok && stv.Addr == ia {
+					mi, ok := stv.Val.(*ssa.MakeInterface)
+					if !ok || !isString(mi.X.Type()) {
+						return nil
+					}
+					if _, dup := elems[ic.Int64()]; dup {
+						return nil
+					}
+					elems[ic.Int64()] = mi.X
+				}
+			}
+		}
+	}
+	var pieces []string
+	lit := ""
+	argi := int64(0)
+	for i := 0; i < len(format); i++ {
+		if format[i] != '%' {
+			lit += string(format[i])
+			continue
+		}
+		if i+1 >= len(format) {
+			return nil
+		}
+		i++
+		switch format[i] {
+		case '%':
+			lit += "%"
+		case 's':
+			v, ok := elems[argi]
+			if !ok {
+				return nil
+			}
+			if lit != "" {
+				pieces = append(pieces, vc.strConstTerm(lit))
+				lit = ""
+			}
+			pieces = append(pieces, vc.val(st, v).S)
+			argi++
+		default:
+			return nil
+		}
+	}
+	if int(argi) != len(elems) {
+		return nil
+	}
+	if lit != "" || len(pieces) == 0 {
+		pieces = append(pieces, vc.strConstTerm(lit))
+	}
+	t := pieces[0]
+	for _, p := range pieces[1:] {
+		t = sx("gs.cat", t, p)
+	}
+	return &Val{T: rt, S: vc.define("sprintf", "Str", t)}
 }
 
 func (vc *FnVC) rootPkg() *types.Package {
